@@ -49,7 +49,8 @@ def hist (start : PState) (rst : Bool) (pdo auto12 : Bool) (extra f s : Nat) (it
   go items start rst [] [] [start] 0
 
 def parseTransport (s : String) : Option Bool :=
-  if s = "p" then some true else if s = "s" then some false else none
+  -- "d": the objects are mapped in PDOs that are switched off, which the profile ignores: SDO transport
+  if s = "p" then some true else if s = "s" ∨ s = "d" then some false else none
 
 /-- ops: `sw n transport`, `goto start rst target transport auto12 d extra F S schedule`,
     `mode index mask transport delay M` -/
